@@ -498,7 +498,7 @@ void c18_hist_observer(const struct cmi_dataset_histogram *hp, FILE *fp)
     for (unsigned b = 0; b < NB + 2; b++) if (b < hp->num_bins) sum += hp->hbins[b];
     OBT("C18-O4", sum == c18_obs_total, "histogram (auto-scale): the bins add up to the number of samples: every sample is counted exactly once");
     OBT("C18-O4", hp->hbins[0] == c18_obs_below && hp->hbins[hp->num_bins - 1u] >= c18_obs_above, "histogram (auto-scale): overflow bins hold the out-of-range samples");
-    OBT("C18-O4", hp->binsize > 0.0, "histogram (auto-scale): the bin width is positive");
+    OBT("C18-O4", hp->binsize > 0.0 || hp->low_lim == hp->high_lim, "histogram (auto-scale): the bin width is positive unless the limits coincide (constant data; the division by it is then a built-in check)");
 }
 
 void h_hist_auto(void)          /* the public function, low_lim == high_lim: range taken from the data */
